@@ -1001,6 +1001,188 @@ def do_reach_large(ctx, bct, n, h, p, with_breadth=False):
     ctx.check(np.array_equal(An, A0), 'distance:no-mutation', 'input modified', case)
 
 
+# ---------------------------------------------------------------- stress families: numeric range of the walk counts (oracle only)
+DBIN_OVERFLOW_KEY = 'distance_bin[walk-count-overflow]:min-length'
+EBIN_OVERFLOW_KEY = 'efficiency_bin[walk-count-overflow]:mean-inverse'
+
+
+def clique_chain(k, c, extra=0, one_way=False, perm=None):
+    """K_k on nodes 0..k-1, a chain of c nodes hanging off node 0 (one_way: connections point away from the block only, so
+    the block is unreachable from the chain), then `extra` nodes forming a path of their own (a second component); node
+    labels permuted by `perm`.  The number of walks of length d inside the block is ~(k-1)^d while the far end of the chain
+    is only reached in round c: (k-1)^c is what a routine that keeps walk COUNTS has to hold."""
+    n = k + c + extra
+    A = np.zeros((n, n))
+    A[:k, :k] = 1
+    np.fill_diagonal(A, 0)
+    prev = 0
+    for i in range(k, k + c):
+        A[prev, i] = 1
+        if not one_way:
+            A[i, prev] = 1
+        prev = i
+    for i in range(k + c, n - 1):
+        A[i, i + 1] = A[i + 1, i] = 1
+    if perm is not None:
+        A = A[np.ix_(perm, perm)]
+    return A
+
+
+CLIQUE_CHAIN_HOW = ('n = k+c+extra; A = zeros((n,n)); A[:k,:k] = 1; fill_diagonal(A, 0); chain 0 - k - k+1 - ... - k+c-1 '
+                    '(one_way: only A[prev,i] = 1); path k+c - ... - n-1; A = A[ix_(perm, perm)]')
+
+
+def bfs_lists(A):
+    """per-source BFS over adjacency lists -> (n,n) float array, inf = unreachable (independent of the library)"""
+    n = len(A)
+    nb = [np.flatnonzero(A[i]).tolist() for i in range(n)]
+    out = np.full((n, n), INF)
+    for s in range(n):
+        row = [INF] * n
+        row[s] = 0
+        fr, d = [s], 0
+        while fr:
+            d += 1
+            nx = []
+            for u in fr:
+                for v in nb[u]:
+                    if row[v] == INF:
+                        row[v] = d
+                        nx.append(v)
+            fr = nx
+        out[s] = row
+    return out
+
+
+def judge_big(ctx, fn, R, D, dist, case, key_for=None):
+    """one returned distance matrix (and reach flags R, or None) of a network with n in the tens / hundreds against BFS distances;
+    R given: the diagonal is the shortest cycle (breadthdist / reachdist), else it must be 0.  key_for: clause -> finding key"""
+    n = len(dist)
+    key = lambda cl: (key_for or {}).get(cl, fn + ':' + cl)
+    D = np.asarray(D, dtype=float)
+    if D.shape != (n, n):
+        ctx.fail(fn + ':shape', 'wrong shape %s' % (D.shape,), case)
+        return False
+    off = ~np.eye(n, dtype=bool)
+    want = dist.copy()
+    if R is not None:
+        S = dist == 1
+        want[~off] = [min([dist[s, u] + 1 for u in np.flatnonzero(S[:, s])] or [INF]) for s in range(n)]
+    unreach = ~np.isfinite(want)
+    m = np.ones((n, n), dtype=bool) if R is not None else off
+    bad = m & unreach & ~(np.isinf(D) & (D > 0))
+    if bad.any():
+        s, t = [int(x) for x in np.argwhere(bad)[0]]
+        ctx.fail(key('inf-iff-unreachable'), 'pair (%d,%d) is unreachable (BFS) but the returned distance is %r; %d such pairs'
+                 % (s, t, float(D[s, t]), int(bad.sum())), case)
+        return False
+    wrong = m & ~unreach & ~(D == want)
+    if wrong.any():
+        s, t = [int(x) for x in np.argwhere(wrong)[0]]
+        ctx.fail(key('min-length'), 'pair (%d,%d): returned %r, BFS distance %r; %d such pairs' % (s, t, float(D[s, t]), float(want[s, t]), int(wrong.sum())), case)
+        return False
+    if R is not None and not np.array_equal(np.asarray(R, dtype=bool), ~unreach):
+        s, t = [int(x) for x in np.argwhere(np.asarray(R, dtype=bool) != ~unreach)[0]]
+        ctx.fail(key('reach-flag'), 'pair (%d,%d): reach flag %r, BFS distance %r' % (s, t, bool(np.asarray(R)[s, t]), float(want[s, t])), case)
+        return False
+    if R is None and not (np.diag(D) == 0).all():
+        ctx.fail(key('diag-zero'), 'nonzero diagonal', case)
+        return False
+    return True
+
+
+def do_clique_chain(ctx, bct, r, k, c, extra, one_way, overflow64=False):
+    """All distance routines on a dense block with a long tail.  (k-1)^c > 3.4e38 (binary32) for every member of the family;
+    overflow64: (k-1)^c > 1.8e308, the walk counts leave binary64 as well (there only the routines that raise the matrix to
+    successive powers are called: distance_bin, efficiency_bin, reachdist)."""
+    n = k + c + extra
+    perm = [int(x) for x in r.permutation(n)]
+    An = clique_chain(k, c, extra, one_way, perm)
+    case = {'kind': 'clique+chain', 'k': k, 'c': c, 'extra': extra, 'one_way': one_way, 'perm': perm, 'construction': CLIQUE_CHAIN_HOW}
+    ctx.case(case, nontrivial=True)
+    ctx.count('stress:clique+chain' + ('(binary64 range)' if overflow64 else '')); ctx.count('stress:n=%d' % n)
+    dist = bfs_lists(An)
+    off = ~np.eye(n, dtype=bool)
+    A0 = An.copy()
+    fin = np.isfinite(dist) & off
+    eff = float(np.sum(1.0 / dist[fin])) / (n * n - n)
+    t_ = 120.0
+
+    def run_(fn, f):
+        try:
+            return call(f, An.copy(), _t=t_)
+        except Timeout:
+            ctx.fail(fn + ':raises', 'does not return within %g s' % t_, case)
+        except Exception as e:
+            ctx.fail(fn + ':raises', 'raised %s: %s' % (type(e).__name__, str(e)[:120]), case)
+        return None
+
+    with np.errstate(all='ignore'):
+        Db = run_('distance_bin', bct.distance_bin)
+        if Db is not None:
+            judge_big(ctx, 'distance_bin', None, Db, dist, case,
+                      {'min-length': DBIN_OVERFLOW_KEY, 'inf-iff-unreachable': DBIN_OVERFLOW_KEY} if overflow64 else None)
+        eb = run_('efficiency_bin', bct.efficiency_bin)
+        if eb is not None:
+            ctx.check(fclose(eb, eff), EBIN_OVERFLOW_KEY if overflow64 else 'efficiency_bin:mean-inverse',
+                      'returned %r, mean inverse BFS distance %r' % (float(eb), eff), case)
+        rr = run_('reachdist', bct.reachdist)
+        if rr is not None:
+            judge_big(ctx, 'reachdist', rr[0], rr[1], dist, case)
+        if not overflow64 or ctx.thorough:
+            rb = run_('breadthdist', bct.breadthdist)
+            if rb is not None:
+                judge_big(ctx, 'breadthdist', rb[0], rb[1], dist, case)
+        if not overflow64:
+            rw = run_('distance_wei', bct.distance_wei)
+            if rw is not None:
+                Dw, Bw = rw
+                if judge_big(ctx, 'distance_wei', None, Dw, dist, case):
+                    # lengths are all 1: the edge count of every minimum-length path is the distance
+                    ctx.check(bool(np.all(np.asarray(Bw, dtype=float)[fin] == dist[fin])), 'distance_wei:edge-count',
+                              'hop counts differ from the BFS distances on a 0/1 matrix', case)
+            rf = run_('distance_wei_floyd', bct.distance_wei_floyd)
+            if rf is not None:
+                if judge_big(ctx, 'distance_wei_floyd', None, rf[0], dist, case):
+                    ctx.check(bool(np.all(np.asarray(rf[1], dtype=float)[fin] == dist[fin])), 'distance_wei_floyd:edge-count',
+                              'hops differ from the BFS distances on a 0/1 matrix', case)
+            ew = run_('efficiency_wei', bct.efficiency_wei)
+            if ew is not None:
+                ctx.check(fclose(ew, eff), 'efficiency_wei:mean-inverse', 'returned %r, mean inverse BFS distance %r' % (float(ew), eff), case)
+            if Db is not None:
+                # charpath on the distance matrix just returned (default flags: diagonal excluded, infinite pairs included)
+                lam_, eff_ = call(bct.charpath, np.asarray(Db, dtype=float).copy(), _t=t_)[:2]
+                lam = float(np.mean(dist[off]))
+                ctx.check(fclose(eff_, eff) and (lam_ == lam if np.isinf(lam) else fclose(lam_, lam)), 'charpath:mean',
+                          'charpath(distance_bin(A)) = (%r, %r), mean / mean inverse of the BFS distances (%r, %r)' % (float(lam_), float(eff_), lam, eff), case)
+    ctx.check(np.array_equal(An, A0), 'distance:no-mutation', 'input modified', case)
+
+
+def stress_rng(ctx, salt=1):
+    """a random state of its own for the stress families (derived from VERIF_SEED like ctx.nprng; the streams of the other
+    generators stay what they were)"""
+    return np.random.RandomState((ctx.seed * 7919 + int(ctx.pid[1:]) + 1000003 * salt + (500009 if ctx.escalated else 0)) % (2 ** 31))
+
+
+def stress_families(ctx, bct):
+    """Walk counts beyond binary32 on every run (two instances in the quick tier), the whole size grid in the thorough tier -
+    which is also what the escalated pass of a quick run executes on a changed tree, FIRST, before its time cap can bite;
+    walk counts beyond binary64 once (twice in thorough)."""
+    r = stress_rng(ctx)
+    grid = [(8, 48), (8, 70), (10, 45), (12, 40), (12, 44), (14, 60), (16, 36), (20, 33), (20, 80), (6, 70)]
+    if ctx.thorough:
+        for i, (k, c) in enumerate(grid):
+            do_clique_chain(ctx, bct, r, k, c, extra=(0, 3, 1)[i % 3], one_way=bool(i % 2))
+    else:
+        k, c = grid[int(r.randint(len(grid) - 2))]
+        do_clique_chain(ctx, bct, r, k, c, extra=int(r.randint(0, 4)), one_way=False)
+        k, c = grid[int(r.randint(len(grid) - 2))]
+        do_clique_chain(ctx, bct, r, k, c, extra=0, one_way=True)
+    do_clique_chain(ctx, bct, r, 50, 183, 2, False, overflow64=True)
+    if ctx.thorough:
+        do_clique_chain(ctx, bct, r, 64, 172, 0, True, overflow64=True)
+
+
 # ---------------------------------------------------------------- correspondence
 def compare_models(ctx, B_):
     res = run_model(ID, B_.lines)
@@ -1091,6 +1273,8 @@ def run(ctx):
     import bct
     B_ = Batch()
     r = ctx.nprng
+    # 0. stress families (numeric range of the walk counts; oracle only) - first, so that an escalated pass reaches them
+    stress_families(ctx, bct)
     # oracle self-test against brute-force path enumeration
     for n in (2, 3, 4):
         for _ in range(ctx.scale(10, 60)):
@@ -1189,3 +1373,8 @@ def run(ctx):
         do_reach_large(ctx, bct, 260, 130, 0.15)
         do_reach_large(ctx, bct, 200, int(r.randint(60, 140)), 0.5)
     compare_models(ctx, B_)
+
+
+def stress_only(ctx, bct):
+    """development aid: the stress families alone"""
+    stress_families(ctx, bct)
